@@ -381,8 +381,6 @@ class _Parser:
                         self.error('bad $-escape (literal $ must be written as $$)')
                         self.i += 1
                 continue
-            if c == '\t' and False:
-                pass
             # literal run
             j = self.i
             stop = '$\n\r :|' if path else '$\n\r'
